@@ -2352,7 +2352,11 @@ def parse_item(line_tokens):
             name, *args = tokens
             name = name.lower()
             return PseudoInstruction(line, name, *args)
-        if tokens[0].lower() in BASE_OFFSET_INSTRUCTIONS and tokens[3] == '(':
+        if tokens[0].lower() in BASE_OFFSET_INSTRUCTIONS and tokens[2].startswith('%') and tokens[-3] == '(' and tokens[-1] == ')' and len(tokens) > 6:
+            # offset(base) whose offset is a modifier with parens of its own: lw rd, %lo(symbol)(rs1)
+            name, rd, *imm = tokens[:-3]
+            rs1 = tokens[-2]
+        elif tokens[0].lower() in BASE_OFFSET_INSTRUCTIONS and tokens[3] == '(':
             name, rd, offset, _, rs1, _ = tokens
             imm = [offset]
         else:
@@ -2367,7 +2371,11 @@ def parse_item(line_tokens):
         return IETypeInstruction(line, name)
     # s-type instructions (all are base offset insts)
     elif head in S_TYPE_INSTRUCTIONS:
-        if tokens[3] == '(':
+        if tokens[2].startswith('%') and tokens[-3] == '(' and tokens[-1] == ')' and len(tokens) > 6:
+            # offset(base) whose offset is a modifier with parens of its own: sw rs2, %lo(symbol)(rs1)
+            name, rs2, *imm = tokens[:-3]
+            rs1 = tokens[-2]
+        elif tokens[3] == '(':
             name, rs2, offset, _, rs1, _ = tokens
             imm = [offset]
         else:
